@@ -161,6 +161,11 @@ func udpWorld(c udpCfg) *world {
 		if len(reply) > 65507 {
 			reply = reply[:65507]
 		}
+		if len(all) == 0 {
+			// the answer to an empty datagram is an empty datagram: a Write/SendTo of zero bytes still
+			// sends exactly one datagram
+			reply = []byte{}
+		}
 		switch mode[indexByte(mode, '+')+1:] {
 		case "write":
 			if m, err := cn.Write(reply); err != nil || m != len(reply) {
@@ -301,7 +306,7 @@ func udpWorld(c udpCfg) *world {
 				return fmt.Sprintf("sender %d expected %d reply datagram(s) and received %d", si, p.want, len(p.got)), "udp:replycount"
 			}
 			for _, g := range p.got {
-				if len(g) == 0 || g[0] != 'R' {
+				if len(g) > 0 && g[0] != 'R' {
 					return fmt.Sprintf("sender %d received a datagram that is no reply", si), "udp:replycontent"
 				}
 				ok := false
@@ -310,6 +315,9 @@ func udpWorld(c udpCfg) *world {
 						w := append([]byte("R"), d...)
 						if len(w) > 65507 {
 							w = w[:65507]
+						}
+						if len(d) == 0 {
+							w = []byte{}
 						}
 						if bytes.Equal(w, g) {
 							ok = true
